@@ -37,6 +37,12 @@ m = {
          "kind_free_text": "contract-based deductive verification: real functions extracted mechanically from /repo on every run, contracts spliced, discharged by Verus/Z3"},
         {"name": "vreplay", "path": "/verif/replay", "serves_properties": [p for p in ids if p in PROPS and PROPS[p].get("search")],
          "kind_free_text": "native witness search on the real crate, run only after an obligation failed, plus validation of trusted std facts; decides nothing"},
+        {"name": "kani", "path": "/verif/kani + /verif/vlib/kani.py", "serves_properties": [p for p in ids if p in PROPS and PROPS[p].get("kind") == "kani"],
+         "kind_free_text": "Kani / CBMC harnesses on the real compiled crate (loop-free, full-domain symbolic inputs = complete; heap payloads bounded and labelled)"},
+        {"name": "rustc", "path": "/verif/vlib/rustc.py", "serves_properties": [p for p in ids if p in PROPS and PROPS[p].get("kind") == "rustc"],
+         "kind_free_text": "auto-trait obligations discharged by rustc's trait solver on a crate generated from /repo's public types on every run"},
+        {"name": "sqlite-engine", "path": "/verif/vlib/engine.py + vreplay engine-cases", "serves_properties": ["C07", "C09", "C13"],
+         "kind_free_text": "bounded stand-in only: the real renderings are executed on a real SQLite engine (python's sqlite3) and rows / catalogue compared; labelled bounded, never counted as proved"},
     ],
     "checks": checks,
     "not_applicable": na,
